@@ -61,7 +61,9 @@ func VerifC11LocksV1() {
 		{"UpdateItemWithContext", func() {
 			c.UpdateItemWithContext(ctx, &dynamodb.UpdateItemInput{TableName: tbl, Key: vItem{"p": vS(k)}, UpdateExpression: aws.String("SET v = :x"), ExpressionAttributeValues: vItem{":x": vS("y")}})
 		}},
-		{"DeleteItemWithContext", func() { c.DeleteItemWithContext(ctx, &dynamodb.DeleteItemInput{TableName: tbl, Key: vItem{"p": vS(k)}}) }},
+		{"DeleteItemWithContext", func() {
+			c.DeleteItemWithContext(ctx, &dynamodb.DeleteItemInput{TableName: tbl, Key: vItem{"p": vS(k)}})
+		}},
 		{"QueryWithContext", func() {
 			c.QueryWithContext(ctx, &dynamodb.QueryInput{TableName: tbl, KeyConditionExpression: aws.String("p = :p"), ExpressionAttributeValues: vItem{":p": vS(k)}})
 		}},
@@ -81,8 +83,8 @@ func VerifC11LocksV1() {
 		"CreateTableWithContext": func() { c.DeleteTable(&dynamodb.DeleteTableInput{TableName: aws.String("other2")}) },
 		"DeleteTableWithContext": func() { AddTable(c, "other2", "p", "") },
 		"UpdateTableWithContext": func() { AddIndex(c, vTbl, "late2", "g", "") },
-		"CreateTable": func() { c.DeleteTable(&dynamodb.DeleteTableInput{TableName: aws.String("other")}) },
-		"DeleteTable": func() { AddTable(c, "other", "p", "") },
+		"CreateTable":            func() { c.DeleteTable(&dynamodb.DeleteTableInput{TableName: aws.String("other")}) },
+		"DeleteTable":            func() { AddTable(c, "other", "p", "") },
 		"UpdateTable": func() {
 			c.UpdateTable(&dynamodb.UpdateTableInput{TableName: tbl, GlobalSecondaryIndexUpdates: []*dynamodb.GlobalSecondaryIndexUpdate{{Delete: &dynamodb.DeleteGlobalSecondaryIndexAction{IndexName: aws.String("late")}}}})
 		},
